@@ -938,7 +938,11 @@ func (x *X) frameObligations(fr *Frame, out *State, c, sch *Contract) {
 			elem := Sort(strings.TrimSuffix(strings.TrimPrefix(string(ki.sort), "(Array Int "), ")"))
 			cond := mkAnd(append([]Term{app(SBool, "<", intLit(0), r), app(SBool, "<", r, alloc0)}, except...)...)
 			goal := mkImplies(cond, mkEq(mkSelect(fin, r, elem), mkSelect(init, r, elem)))
-			x.obligation(out, "frame", shortKey(k), goal, token.NoPos, "only locations named in modifies may change: "+k, fprops)
+			kp := fprops
+			if extra := x.db.frameProps[k]; len(extra) > 0 {
+				kp = append(append([]string{}, fprops...), extra...)
+			}
+			x.obligation(out, "frame", shortKey(k), goal, token.NoPos, "only locations named in modifies may change: "+k, kp)
 		case strings.HasPrefix(k, "G:"):
 			init := x.defaultOf(k)
 			if fin.S == init.S {
